@@ -26,6 +26,10 @@ OBLIGATIONS.append(dict(id='C03.brackets', engine='V', verus_fn='Parser::parse_p
     desc='real parse_paren, every token vector: a round-bracketed expression is accepted only when closed by a round bracket, a curly one only by a curly bracket; the bracketed expression is returned unchanged (both styles mean the same)'))
 OBLIGATIONS.append(ob('C03.negate.complement.string', 'verif_frag::strarm::c12_arm_glob_edge', 'String arm of conforms (whole block verbatim on a shim world): on every witness the negative operator (`!=`) returns the complement of the positive one (same harness as C12.arm.glob_edge)', units=['strarm'], complete=False, bound='concrete witness texts'))
 OBLIGATIONS.append(ob('C03.negate.complement.string.rx', 'verif_frag::strarm::c12_arm_rx_like', 'String arm of conforms: `!=~` / `notlike` return the complement of `=~` / `like` on every witness (same harness as C12.arm.rx_like)', units=['strarm'], complete=False, bound='concrete witness texts'))
+OBLIGATIONS.append(dict(id='C03.not.parity', engine='V', verus_fn='Parser::parse_cond', label='C03.not.parity', complete=True, bound=None, units=[], harness='verus:Parser::parse_cond', tier='quick',
+    desc='real parse_cond, every token vector: the condition is negated exactly when the number of NOT tokens in front of it is odd (so `not not A` is A); loop invariant over a recursive count of the leading NOT tokens'))
+OBLIGATIONS.append(dict(id='C03.cond.operator', engine='V', verus_fn='Parser::parse_cond', label='C03.cond.operator', complete=True, bound=None, units=[], harness='verus:Parser::parse_cond', tier='quick',
+    desc='real parse_cond, every token vector: `x OP y` (OP not BETWEEN) builds exactly the node (x, the operator the spelling OP denotes, y) and `x not OP y` the node with the complement operator (Op::from_with_not proved against Op::negate; the spelling table itself: C11.alias.op.*)'))
 CANARIES = [dict(harness='verif_frag::strarm::canary_strarm_must_fail', units=['strarm']), dict(harness=CMP + 'canary_cmp_must_fail', units=['cmp']), dict(harness=LOGIC + 'canary_logic_must_fail', units=['logic']),
             dict(harness=OPS + 'canary_ops_must_fail', units=['operators'])]
 ASSUMPTIONS = ['float arm: stated for non-NaN operands (IEEE comparisons with NaN are not complements)', 'date arm: start <= finish']
